@@ -297,7 +297,14 @@ def translate(repo='/repo', lenient_conv=False):
     consts, env = parse_consts(s1)
     bitflags = parse_bitflags(s1, env) + parse_bitflags(s2, {})
     enums = parse_enums(s1)
-    arms, default = parse_opcode_from(s1)
+    opcode_error = None
+    try:
+        arms, default = parse_opcode_from(s1)
+    except TranslateError as ex:
+        # lenient mode: keep everything else so that the probe of the real Opcode::from (thousands of values against
+        # the kernel's opcode table) can still run and name a concrete failing opcode number
+        if not lenient_conv: raise
+        arms, default, opcode_error = [], None, str(ex)
     attr_t = struct_field_types(structs, 'Attr')
     kst_t = struct_field_types(structs, 'Kstatfs')
     set_t = struct_field_types(structs, 'SetattrIn')
@@ -318,7 +325,7 @@ def translate(repo='/repo', lenient_conv=False):
             if not lenient_conv: raise
             conv_errors[cname] = str(ex)
     return {'structs': structs, 'consts': consts, 'bitflags': bitflags, 'enums': enums,
-            'opcode_from': {'arms': arms, 'default': default}, 'conv': conv, 'conv_errors': conv_errors}
+            'opcode_from': {'arms': arms, 'default': default, 'error': opcode_error}, 'conv': conv, 'conv_errors': conv_errors}
 
 # ---------------------------------------------------------------- Coq emission
 def coq_str(s): return '"%s"' % s
